@@ -146,9 +146,10 @@ Example C03_batches_nonvacuous :
   st_mode (get w4_run) = Running /\ urls (st_tbl (get w4_run)) = [1; 5; 6].
 Proof. exact c03_batches_nonvacuous. Qed.
 
-(* The batch size at which a visit commits its admitted children in the middle of a scrape (Model/Engine.v flush_size) is the one
-   in the source (Gen/Consts.v, regenerated from wpull/pipeline/session.py ItemSession.add_url on every run). *)
-Theorem C03_child_batch_size_is_the_source : N.of_nat flush_size = gen_child_batch_size.
+(* The batch size at which a visit commits its admitted children in the middle of a scrape (Model/Engine.v flush_size) is read
+   from the source (Gen/Consts.v, regenerated from wpull/pipeline/session.py ItemSession.add_url on every run), and positive -
+   all the theorems above need. *)
+Theorem C03_child_batch_size_is_the_source : flush_size = N.to_nat gen_child_batch_size /\ (1 <= flush_size)%nat.
 Proof. exact engine_child_batch_size_agrees. Qed.
 Print Assumptions C03_child_batch_size_is_the_source.
 
